@@ -133,6 +133,44 @@ def scO (moved : String → Bool) (B : List String) : Option Expr → Bool
 end
 
 mutual
+/-- closure-aware scope check: as `scE`, but a closure's parameters must not be moved at all (a closure value
+    may be applied to fewer arguments than it has parameters, so its parameters are not known to be bound) and
+    its body is checked in the scope of the closure expression -/
+def scC (moved : String → Bool) (B : List String) : Expr → Bool
+  | .var x _ => !moved x || B.contains x
+  | .prim _ => true
+  | .tag _ _ => true
+  | .constr _ _ args => scCL moved B args
+  | .tuple _ items => scCL moved B items
+  | .array _ items => scCL moved B items
+  | .closure _ ps b => ps.all (fun p => !moved p.1) && scC moved B b
+  | .letE x v b => scC moved B v && scC moved (x :: B) b
+  | .matchE _ s arms d => scC moved B s && scCArms moved B arms && scCO moved B d
+  | .ite c t e => scC moved B c && scC moved B t && scC moved B e
+  | .while c b => scC moved B c && scC moved B b
+  | .go e => scC moved B e
+  | .cget _ _ _ e => scC moved B e
+  | .un _ _ e => scC moved B e
+  | .bin _ _ l r => scC moved B l && scC moved B r
+  | .call _ f args => scC moved B f && scCL moved B args
+  | .toDyn _ _ _ e => scC moved B e
+  | .dynCall _ _ _ r args => scC moved B r && scCL moved B args
+  | .traitCall _ _ _ r args => scC moved B r && scCL moved B args
+  | .proj _ _ e => scC moved B e
+def scCL (moved : String → Bool) (B : List String) : List Expr → Bool
+  | [] => true
+  | e :: es => scC moved B e && scCL moved B es
+def scCArms (moved : String → Bool) (B : List String) : List Arm → Bool
+  | [] => true
+  | a :: as => scCArm moved B a && scCArms moved B as
+def scCArm (moved : String → Bool) (B : List String) : Arm → Bool
+  | .mk _ b => scC moved B b
+def scCO (moved : String → Bool) (B : List String) : Option Expr → Bool
+  | none => true
+  | some e => scC moved B e
+end
+
+mutual
 /-- every name the expression mentions (variables and binders) is in `N` -/
 def inE (N : List String) : Expr → Bool
   | .var x _ => N.contains x
@@ -199,12 +237,19 @@ def eqPrim : Prim → Prim → Bool
   | .str a, .str b => a == b
   | _, _ => false
 
-/-- arm heads select the same values -/
+/-- the forms of an arm head `armMatches` looks at -/
+def isHead : Expr → Bool
+  | .constr _ _ _ => true
+  | .tag _ _ => true
+  | .prim _ => true
+  | _ => false
+
+/-- arm heads select the same values (two heads of any other form select nothing) -/
 def aeLhs : Expr → Expr → Bool
   | .constr c _ _, .constr d _ _ => decide (c = d)
   | .tag i _, .tag j _ => i == j
   | .prim p, .prim q => eqPrim p q
-  | _, _ => false
+  | l, m => !isHead l && !isHead m
 
 mutual
 def aeE (σ : String → String) : Expr → Expr → Bool
@@ -214,6 +259,7 @@ def aeE (σ : String → String) : Expr → Expr → Bool
   | .constr c _ a, .constr d _ b => decide (c = d) && aeL σ a b
   | .tuple _ a, .tuple _ b => aeL σ a b
   | .array _ a, .array _ b => aeL σ a b
+  | .closure _ ps b, .closure _ qs c => ps.map (fun p => σ p.1) == qs.map (·.1) && aeE σ b c
   | .letE x v b, .letE y w c => σ x == y && aeE σ v w && aeE σ b c
   | .matchE _ s a d, .matchE _ r b e => aeE σ s r && aeArms σ a b && aeO σ d e
   | .ite c t e, .ite d u f => aeE σ c d && aeE σ t u && aeE σ e f
@@ -266,11 +312,12 @@ partial def namesOfE (e : Expr) : List String :=
   go [e] []
 
 /-- function `g` of the whole-program Core is function `f` of the separate Core renamed by `σ`, and
-    the hypotheses of the renaming theorem hold of `f` (`N` = the names `σ` must be injective on) -/
+    the hypotheses of the renaming theorem hold of `f` (`N` = the names `σ` must be injective on);
+    closure expressions are allowed (`scC` instead of `cfE` + `scE`, round 10) -/
 def validFn (σ : String → String) (N : List String) (f g : Fn) : Bool :=
   f.params.map (fun p => σ p.1) == g.params.map (·.1) && aeE σ f.body g.body &&
   injOn σ N && inE N f.body && f.params.all (fun p => N.contains p.1) &&
-  cfE f.body && scE (fun x => σ x != x) [] f.body
+  scC (fun x => σ x != x) [] f.body
 
 /-- the lookup `Sem.eval` performs in the table of trait implementations -/
 def implPred (tr key m : String) (i : String × String × String × String) : Bool :=
